@@ -308,13 +308,16 @@ func (s *Subscriber) Close() error {
 func (s *Subscriber) doClose() error {
 	// Cancel idle handler cleaner.
 	close(s.closing)
+	verifYield("c.closing", "", cid.Undef)
 
 	// Block any additional explicit Sync calls.
 	s.expSyncMutex.Lock()
 	s.expSyncClosed = true
 	s.expSyncMutex.Unlock()
+	verifYield("c.expclosed", "", cid.Undef)
 	// Wait for explicit Syncs calls to finish.
 	s.expSyncWG.Wait()
+	verifYield("c.expdone", "", cid.Undef)
 
 	var err error
 	if s.receiver != nil {
@@ -325,12 +328,15 @@ func (s *Subscriber) doClose() error {
 		}
 		<-s.watchDone
 	}
+	verifYield("c.watchdone", "", cid.Undef)
 
 	// Wait for any syncs to complete.
 	s.asyncWG.Wait()
+	verifYield("c.asyncdone", "", cid.Undef)
 
 	// Stop the distribution goroutine.
 	close(s.inEvents)
+	verifYield("c.inclosed", "", cid.Undef)
 
 	s.httpPeerstore.Close()
 
@@ -348,12 +354,15 @@ func (s *Subscriber) OnSyncFinished() (<-chan SyncFinished, context.CancelFunc) 
 	// not reading the channel immediately.
 	cq := chanqueue.New[SyncFinished]()
 	ch := cq.In()
+	verifYield("l.preadd", "", cid.Undef)
 	s.addEventChan <- ch
+	verifYield("l.added", "", cid.Undef)
 
 	cncl := func() {
 		if ch == nil {
 			return
 		}
+		verifYield("l.prerm", "", cid.Undef)
 		select {
 		case s.rmEventChan <- ch:
 		case <-s.closing:
@@ -404,6 +413,7 @@ func (s *Subscriber) SyncAdChain(ctx context.Context, peerInfo peer.AddrInfo, op
 	defer s.expSyncWG.Done()
 
 	opts := getSyncOpts(options)
+	verifYield("e.enter", peerInfo.ID, cid.Undef)
 	if opts.blockHook == nil {
 		opts.blockHook = s.generalBlockHook
 	}
@@ -463,6 +473,7 @@ func (s *Subscriber) SyncAdChain(ctx context.Context, peerInfo peer.AddrInfo, op
 		// Update the latest unless a specific CID to sync was given.
 		updateLatest = true
 	}
+	verifYield("e.head", peerInfo.ID, nextCid)
 	var stopAtCid cid.Cid
 	if stopLnk != nil {
 		stopAtCid = stopLnk.(cidlink.Link).Cid
@@ -496,6 +507,7 @@ func (s *Subscriber) SyncAdChain(ctx context.Context, peerInfo peer.AddrInfo, op
 	if err != nil {
 		return cid.Undef, fmt.Errorf("sync handler failed: %w", err)
 	}
+	verifYield("e.synced", peerInfo.ID, nextCid)
 
 	// The sync succeeded, so remember this address in the appropriate
 	// peerstore. Add to peerstore before sending the SyncFinished event so
@@ -506,6 +518,7 @@ func (s *Subscriber) SyncAdChain(ctx context.Context, peerInfo peer.AddrInfo, op
 	if updateLatest {
 		hnd.sendSyncFinishedEvent(nextCid, syncCount)
 	}
+	verifYield("e.recorded", peerInfo.ID, nextCid)
 
 	return nextCid, nil
 }
@@ -611,6 +624,7 @@ func (s *Subscriber) distributeEvents() {
 	var outEventsChans []chan<- SyncFinished
 
 	for {
+		verifYield("d.select", "", cid.Undef)
 		select {
 		case event, ok := <-s.inEvents:
 			if !ok {
@@ -618,14 +632,17 @@ func (s *Subscriber) distributeEvents() {
 				for _, ch := range outEventsChans {
 					close(ch)
 				}
+				verifYield("d.exit", "", cid.Undef)
 				return
 			}
 			// Send update to all change notification channels.
+			verifYield("d.event", event.PeerID, event.Cid)
 			for _, ch := range outEventsChans {
 				ch <- event
 			}
 		case ch := <-s.addEventChan:
 			outEventsChans = append(outEventsChans, ch)
+			verifYield("d.add", "", cid.Undef)
 		case ch := <-s.rmEventChan:
 			for i, ca := range outEventsChans {
 				if ca == ch {
@@ -636,6 +653,7 @@ func (s *Subscriber) distributeEvents() {
 					break
 				}
 			}
+			verifYield("d.rm", "", cid.Undef)
 		}
 	}
 }
@@ -697,6 +715,7 @@ func (s *Subscriber) watch() {
 	defer cancel()
 
 	for {
+		verifYield("w.next", "", cid.Undef)
 		amsg, err := s.receiver.Next(context.Background())
 		if err != nil {
 			// This is a normal result of shutting down the Receiver.
@@ -705,9 +724,15 @@ func (s *Subscriber) watch() {
 		}
 
 		hnd := s.getOrCreateHandler(amsg.PeerID)
+		verifYield("w.recv", amsg.PeerID, amsg.Cid)
 
 		// Set the message to be handled by the waiting goroutine.
 		oldMsg := hnd.pendingMsg.Swap(&amsg)
+		if oldMsg != nil {
+			verifYield("w.swap.replaced", amsg.PeerID, amsg.Cid)
+		} else {
+			verifYield("w.swap.first", amsg.PeerID, amsg.Cid)
+		}
 		// If rhw previous pending message was not nil, then there is an
 		// existing request to sync the ad chain.
 		if oldMsg != nil {
@@ -722,8 +747,10 @@ func (s *Subscriber) watch() {
 			// Wait for any previous asyncSyncAdChain to finish before removing the
 			// latest pending messaged and reducing the available items in the sync
 			// semaphore.
+			verifYield("g.entry", hnd.peerID, cid.Undef)
 			hnd.asyncMutex.Lock()
 			defer hnd.asyncMutex.Unlock()
+			verifYield("g.locked", hnd.peerID, cid.Undef)
 			if s.syncSem != nil {
 				select {
 				case s.syncSem <- struct{}{}:
@@ -733,7 +760,9 @@ func (s *Subscriber) watch() {
 				case <-ctx.Done():
 				}
 			}
+			verifYield("g.sem", hnd.peerID, cid.Undef)
 			hnd.asyncSyncAdChain(ctx)
+			verifYield("g.exit", hnd.peerID, cid.Undef)
 			s.asyncWG.Done()
 		}()
 	}
@@ -854,6 +883,7 @@ func (h *handler) asyncSyncAdChain(ctx context.Context) {
 
 	// Get the latest pending message.
 	amsg := h.pendingMsg.Swap(nil)
+	verifYield("g.took", h.peerID, amsg.Cid)
 
 	adsDepthLimit := h.subscriber.adsDepthLimit
 	nextCid := amsg.Cid
@@ -892,6 +922,7 @@ func (h *handler) asyncSyncAdChain(ctx context.Context) {
 			h.subscriber.receiver.UncacheCid(nextCid)
 		}
 		log.Errorw("Cannot process message", "err", err, "peer", h.peerID)
+		verifYield("g.failed", h.peerID, nextCid)
 		h.subscriber.inEvents <- SyncFinished{
 			Cid:    nextCid,
 			PeerID: h.peerID,
@@ -901,6 +932,7 @@ func (h *handler) asyncSyncAdChain(ctx context.Context) {
 	}
 	updatePeerstore()
 	h.sendSyncFinishedEvent(nextCid, syncCount)
+	verifYield("g.recorded", h.peerID, nextCid)
 }
 
 var _ SegmentSyncActions = (*segmentedSync)(nil)
@@ -964,6 +996,7 @@ func (ss *segmentedSync) reset() {
 
 func (h *handler) sendSyncFinishedEvent(c cid.Cid, count int) {
 	h.subscriber.latestSyncHandler.setLatestSync(h.peerID, c)
+	verifYield("s.latestset", h.peerID, c)
 	h.subscriber.inEvents <- SyncFinished{
 		Cid:    c,
 		PeerID: h.peerID,
@@ -990,7 +1023,9 @@ func (h *handler) handle(ctx context.Context, nextCid cid.Cid, sel ipld.Node, sy
 	// Wait for any previous sync for this peer ID to finish. This is necessary
 	// to protect the scopedBlockHook map from having having another hook
 	// mapped to this peer ID.
+	verifYield("h.prelock", h.peerID, nextCid)
 	h.syncMutex.Lock()
+	verifYield("h.locked", h.peerID, nextCid)
 	h.subscriber.scopedBlockHookMutex.Lock()
 	h.subscriber.scopedBlockHook[h.peerID] = hook
 	h.subscriber.scopedBlockHookMutex.Unlock()
@@ -998,6 +1033,7 @@ func (h *handler) handle(ctx context.Context, nextCid cid.Cid, sel ipld.Node, sy
 		h.subscriber.scopedBlockHookMutex.Lock()
 		delete(h.subscriber.scopedBlockHook, h.peerID)
 		h.subscriber.scopedBlockHookMutex.Unlock()
+		verifYield("h.unlock", h.peerID, cid.Undef)
 		h.syncMutex.Unlock()
 	}()
 
